@@ -136,11 +136,19 @@ def main(tier, seed):
         bycls[cls].append(n)
     real = []
     for cls, names in sorted(bycls.items()):
-        pick = names if tier != "quick" else rng.sample(names, min(len(names), 3))
+        pick = names if tier != "quick" else sorted(set(rng.sample(names, min(len(names), 3)) + sorted(names, key=len)[:1] + sorted(names, key=len)[-2:]
+                                                         + [n for n in names if n.startswith(b"xn--")][:2]))
         for n in pick:
             real.append((b"user@mail." + n, "class", cls))
     for d in (b"example.com", b"a.test", b"localhost", b"x.y.onion", b"EXAMPLE.ORG", b"abcdefg.invalid"):
         real.append((b"u@" + d, "class", "SPECIAL"))
+    # meaningful second-level labels: the governing bit is the class of the *last* label (reserved names aside)
+    for w in (b"home", b"ipv4only", b"resolver", b"service", b"in-addr", b"ip6", b"local", b"corp", b"mail", b"www", b"gov", b"nic"):
+        for t in (b"arpa", b"com", b"org", b"int"):
+            d = w + b"." + t
+            cls = mdl.tld_class_of(d)
+            if cls not in ("INVALID", "NOT_FQDN"):
+                real.append((b"u@" + d, "class", cls))
     for d in (b"a.zzzzzz", b"a.comm", b"mail.co1"):
         real.append((b"u@" + d, "unlisted", None))
     for d in (b"pppppp", b"com", b"mailhost"):
